@@ -77,11 +77,79 @@ class C28(Check):
 
     def strategy(self, tier):
         nv = 4 if tier == "quick" else 6
-        return st.fixed_dictionaries({
+        prog = st.fixed_dictionaries({
             "family": st.integers(0, len(FAMILY_NAMES) - 1),
             "prog": progen.program_strategy(max_defs=10, max_sites=12),
             "variants": st.lists(variant_strategy(), min_size=2, max_size=nv),
         })
+        # String-table programs (C07's generator: runs of short strings, > 12 string starts per 256-byte
+        # block, references into the middle of strings through section symbols and named symbols): the
+        # progen programs have only a handful of long strings, which leaves most of the string-merge
+        # lookup paths untouched by the "with or without string merging" clause.
+        from checks import c07
+        strtab = st.fixed_dictionaries({
+            "flavour": st.just("strtab"),
+            "c07": st.sampled_from(["small", "small", "small", "mid"]).flatmap(c07.sized_case_strategy),
+            "variants": st.lists(variant_strategy(), min_size=2, max_size=nv),
+        })
+        return st.sampled_from([0, 0, 0, 1]).flatmap(lambda k: strtab if k else prog)
+
+    def run_strtab(self, case, ctx):
+        from checks import c07
+        d = ctx.dir
+        objs, refs = c07.build_model(case["c07"])
+        if not refs:
+            raise Discard("no non-empty string section")
+        if any(s.unterminated for o in objs for s in o["secs"]):
+            raise Discard("unterminated final string: C07's subject")
+        for oi, o in enumerate(objs):
+            c07.emit_object(oi, o, case["c07"]["cst_refs"], d)
+        c07.emit_main(objs, d)
+        files = ["main.o"] + [f"o{oi}.o" for oi in range(len(objs))]
+        expected = b"".join(r.expect + b"\n" for o in objs for r in o["refs"]) + \
+            b"".join(r.expect + b"\n" for o in objs for r in o["trefs"])
+        lr = tools.link("ld", [*files, "-o", "ld.out"], cwd=d, timeout=600)
+        if lr.timed_out:
+            raise Inconclusive("GNU ld timed out")
+        if lr.rc != 0:
+            raise Discard("GNU ld rejects: " + _errline(lr.err))
+        if c07.C07._run(f"{d}/ld.out", d) != expected:
+            raise OracleSplit("model vs GNU ld (string-table program)")
+        classes = ["flavour:strtab", "family:nonpic", "mode:static"]
+        linked = []
+        for i, v in enumerate(case["variants"]):
+            opts = self._opts(v, "static")
+            r = tools.link("wild", [*opts, *files, "-o", f"w{i}.out"], cwd=d, timeout=300)
+            if r.timed_out:
+                raise Inconclusive("wild timed out")
+            if r.rc < 0 or r.rc == 101 or "panicked at" in r.err or (r.rc != 0 and ALLOC_MSG.search(r.err)):
+                raise Violation("link-fails-under-options",
+                                f"wild crashed or failed its size accounting with {opts} (static, string tables); GNU ld "
+                                f"links the program: {r.err[-400:]}", {"mode": "static", "opts": opts})
+            if r.rc != 0:
+                classes.append("variant_rejected:" + _errline(r.err)[:40])
+                continue
+            got = c07.C07._run(f"{d}/w{i}.out", d)
+            if got != expected:
+                at = next((j for j, (a, b) in enumerate(zip(got, expected)) if a != b), min(len(got), len(expected)))
+                raise Violation("behaviour-differs:strtab",
+                                f"wild static {opts}: stdout of the string-table program differs from GNU ld's and the "
+                                f"model's ({len(got)} vs {len(expected)} bytes, first difference at byte {at})",
+                                {"mode": "static", "opts": opts})
+            linked.append(("static", v, opts))
+            for o in opts:
+                if o != "-z":
+                    classes.append("opt:" + o.split("=0x")[0])
+        if not linked:
+            raise Discard("wild rejected every variant")
+        mid = any(r.mid for r in refs)
+        if mid:
+            classes.append("feat:mid-string-ref")
+        merges = {SWITCHES["merge"][v["merge"] % 2] for _, v, _ in linked}
+        key = hashlib.sha1(json.dumps([case["c07"]["objs"], case["c07"]["refs"], [o for _, _, o in linked]],
+                                      sort_keys=True).encode()).hexdigest()[:16]
+        return {"nontrivial": len(merges) == 2 and mid, "key": key, "classes": sorted(set(classes)),
+                "counters": {"variants_linked": len(linked), "sites": len(refs)}}
 
     @staticmethod
     def _opts(v, mode):
@@ -107,6 +175,8 @@ class C28(Check):
 
     @progen.shrink_budget(45)
     def run_case(self, case, ctx):
+        if case.get("flavour") == "strtab":
+            return self.run_strtab(case, ctx)
         d = ctx.dir
         fam = FAMILY_NAMES[case["family"] % len(FAMILY_NAMES)]
         modes = FAMILIES[fam]
